@@ -200,6 +200,64 @@ theorem dupFnErrs_mono (f : PFn) (rest : List PFn) (seen : List String) (e : Err
     e ∈ dupFnErrs seen (f :: rest) := by
   simp [dupFnErrs, h]
 
+/-- a function named like a value of the root scope -/
+theorem fn_name_clash (root : List (String × Ty)) (fs : List PFn) (f : PFn) (hf : f ∈ fs)
+    (h : (lookupTy f.name root).isSome = true) :
+    ⟨.nameClash, .duplicateDefinition⟩ ∈ fnClashErrs root fs := by
+  induction fs with
+  | nil => cases hf
+  | cons g rest ih =>
+    simp only [fnClashErrs, List.mem_append]
+    cases hf with
+    | head => left; simp [h]
+    | tail _ hr => exact Or.inr (ih hr)
+
+theorem fn_name_clash_prog (p : PProg) (needMain : Bool) (f : PFn) (hf : f ∈ p.fns)
+    (h : (lookupTy f.name hostScope).isSome = true) :
+    ⟨.nameClash, .duplicateDefinition⟩ ∈ (checkProg needMain p).errs := by
+  have := fn_name_clash hostScope p.fns f hf h
+  simp [checkProg, this]
+
+/-- a global named like a function of the module -/
+theorem global_name_clash (fns vars : List (String × Ty)) (g : PGlobal) (rest : List PGlobal)
+    (h : (lookupTy g.name fns).isSome = true) :
+    ⟨.nameClash, .duplicateDefinition⟩ ∈ (checkGlobals fns vars (g :: rest)).errs := by
+  simp [checkGlobals, globalClashErrs, h]
+
+theorem checkGlobals_mono (fns vars : List (String × Ty)) (g : PGlobal) (rest : List PGlobal) (e : Err)
+    (h : e ∈ (checkGlobals fns (letRule { vars := vars, fns := fns, ret := none, inLoop := false } g.name g.ann
+      (checkExpr { vars := vars, fns := fns, ret := none, inLoop := false } false g.e) true).vars rest).errs) :
+    e ∈ (checkGlobals fns vars (g :: rest)).errs := by
+  simp [checkGlobals, h]
+
+theorem global_name_clash_mem (fns : List (String × Ty)) (gs : List PGlobal) (g : PGlobal) (hg : g ∈ gs)
+    (h : (lookupTy g.name fns).isSome = true) :
+    ∀ vars, ⟨.nameClash, .duplicateDefinition⟩ ∈ (checkGlobals fns vars gs).errs := by
+  induction gs with
+  | nil => cases hg
+  | cons g' rest ih =>
+    intro vars
+    cases hg with
+    | head => exact global_name_clash fns vars g rest h
+    | tail _ hr => exact checkGlobals_mono fns vars g' rest _ (ih hr _)
+
+theorem lookupTy_map_isSome (fs : List PFn) (f : PFn) (hf : f ∈ fs) :
+    (lookupTy f.name (fs.map fun f => (f.name, fnSig f))).isSome = true := by
+  induction fs with
+  | nil => cases hf
+  | cons g rest ih =>
+    simp only [List.map_cons, lookupTy]
+    by_cases hn : (g.name == f.name) = true
+    · simp [hn]
+    · cases hf with
+      | head => simp at hn
+      | tail _ hr => simp only [hn, Bool.false_eq_true, ↓reduceIte]; exact ih hr
+
+theorem global_errors_reach_program (p : PProg) (needMain : Bool) (e : Err)
+    (h : e ∈ (checkGlobals (p.fns.map fun f => (f.name, fnSig f)) hostScope p.globals).errs) :
+    e ∈ (checkProg needMain p).errs := by
+  simp [checkProg, h]
+
 theorem duplicate_global (Γ : Ctx) (name : String) (ann : Option PTy) (r : Res) (h : (lookupTy name Γ.vars).isSome = true) :
     ⟨.duplicateGlobal, .duplicateDefinition⟩ ∈ (letRule Γ name ann r true).errs := by
   simp [letRule, h]
